@@ -33,6 +33,7 @@ type Server struct {
 	mu        sync.Mutex
 	listeners []net.Listener
 	conns     map[net.Conn]bool
+	closed    bool // Close or Shutdown has been called
 }
 
 func (s *Server) ListenAndServe() error {
@@ -62,7 +63,13 @@ func (s *Server) Serve(l net.Listener) error {
 	defer l.Close()
 
 	s.mu.Lock()
-	s.listeners = append(s.listeners, l)
+	if s.closed {
+		// the server was shut down before it got to serve this listener,
+		// e.g. by a signal during start-up: do not accept from it
+		l.Close()
+	} else {
+		s.listeners = append(s.listeners, l)
+	}
 	s.mu.Unlock()
 
 	for {
@@ -101,6 +108,7 @@ func (s *Server) closeListeners() error {
 		l.Close()
 	}
 	s.listeners = nil
+	s.closed = true
 	s.mu.Unlock()
 	return nil
 }
